@@ -9,6 +9,7 @@ pub mod c04;
 pub mod c05;
 pub mod sddsweep;
 pub mod c06;
+pub mod c07;
 pub mod c08;
 pub mod bddutil;
 pub mod c13;
@@ -31,6 +32,7 @@ pub fn registry() -> Vec<Prop> {
         Prop { id: "C04", run: c04::run, replay: c04::replay },
         Prop { id: "C05", run: c05::run, replay: c05::replay },
         Prop { id: "C06", run: c06::run, replay: c06::replay },
+        Prop { id: "C07", run: c07::run, replay: c07::replay },
         Prop { id: "C08", run: c08::run, replay: c08::replay },
         Prop { id: "C09", run: c09::run, replay: c09::replay },
         Prop { id: "C13", run: c13::run, replay: c13::replay },
